@@ -38,7 +38,8 @@ def cases(tier, seed):
              "fill": fill, "join": join, "balanced": balanced, "obids": obids, "obstarts": obstarts}
         yield "tx.dump", {"table": table, "mode": mode, "px": px, "o": o, "header": h % 5 == 0,
                           "wexp": [rng.choice([0, 1, 2, -1]) for _ in range(n)] if balanced else [],
-                          "chunk": rng.choice([1, 2, 3, 10 ** 6]), **({"at": ["/resolutions/10", "/a/b"][h % 2]} if h % 5 == 3 else {})}
+                          "chunk": rng.choice([1, 2, 3, 10 ** 6]), **({"at": ["/resolutions/10", "/a/b"][h % 2]} if h % 5 == 3 else {}),
+                          "prior": h % 6 == 1}
     # (2) field layouts at arbitrary, non-monotone column numbers
     nl = 220 if tier == "quick" else 4000
     for h in range(nl):
